@@ -178,3 +178,245 @@ func (m *MITM) pump(dir int, src, dst net.Conn, closeAll func()) {
 	}
 	io.Copy(dst, src)
 }
+
+// ---------------------------------------------------------------- mutations
+
+type reqView struct {
+	allowance, collateral, minerFee *types.Currency
+	basis                           *types.ChainIndex
+	inputs                          *[]types.SiacoinElement
+	parents                         *[]types.V2Transaction
+	prices                          *proto4.HostPrices
+	proofHeight                     *uint64
+	challenge                       *types.Signature
+}
+
+type secondView struct {
+	contractSig, renewalSig *types.Signature
+	policies                *[]types.SatisfiedPolicy
+}
+
+type thirdView struct {
+	basis *types.ChainIndex
+	set   *[]types.V2Transaction
+}
+
+func views(msg proto4.Object) (rq *reqView, hostInputs *[]types.V2SiacoinInput, sec *secondView, th *thirdView) {
+	switch m := msg.(type) {
+	case *proto4.RPCFormContractRequest:
+		rq = &reqView{&m.Contract.Allowance, &m.Contract.Collateral, &m.MinerFee, &m.Basis, &m.RenterInputs, &m.RenterParents, &m.Prices, &m.Contract.ProofHeight, nil}
+	case *proto4.RPCRenewContractRequest:
+		rq = &reqView{&m.Renewal.Allowance, &m.Renewal.Collateral, &m.MinerFee, &m.Basis, &m.RenterInputs, &m.RenterParents, &m.Prices, &m.Renewal.ProofHeight, &m.ChallengeSignature}
+	case *proto4.RPCRefreshContractRequest:
+		rq = &reqView{&m.Refresh.Allowance, &m.Refresh.Collateral, &m.MinerFee, &m.Basis, &m.RenterInputs, &m.RenterParents, &m.Prices, nil, &m.ChallengeSignature}
+	case *proto4.RPCFormContractResponse:
+		hostInputs = &m.HostInputs
+	case *proto4.RPCRenewContractResponse:
+		hostInputs = &m.HostInputs
+	case *proto4.RPCRefreshContractResponse:
+		hostInputs = &m.HostInputs
+	case *proto4.RPCFormContractSecondResponse:
+		sec = &secondView{&m.RenterContractSignature, nil, &m.RenterSatisfiedPolicies}
+	case *proto4.RPCRenewContractSecondResponse:
+		sec = &secondView{&m.RenterContractSignature, &m.RenterRenewalSignature, &m.RenterSatisfiedPolicies}
+	case *proto4.RPCRefreshContractSecondResponse:
+		sec = &secondView{&m.RenterContractSignature, &m.RenterRenewalSignature, &m.RenterSatisfiedPolicies}
+	case *proto4.RPCFormContractThirdResponse:
+		th = &thirdView{&m.Basis, &m.TransactionSet}
+	case *proto4.RPCRenewContractThirdResponse:
+		th = &thirdView{&m.Basis, &m.TransactionSet}
+	case *proto4.RPCRefreshContractThirdResponse:
+		th = &thirdView{&m.Basis, &m.TransactionSet}
+	}
+	return
+}
+
+var oneH = types.NewCurrency64(1)
+
+// FormationMutate is the MITM mutation function for form / renew / refresh.
+func FormationMutate(dir, idx int, msg proto4.Object, f Fault) bool {
+	rq, hostInputs, sec, th := views(msg)
+	switch {
+	case rq != nil:
+		switch f.Mut {
+		case "allowance+1":
+			*rq.allowance = rq.allowance.Add(oneH)
+		case "collateral+1":
+			*rq.collateral = rq.collateral.Add(oneH)
+		case "minerfee+1":
+			*rq.minerFee = rq.minerFee.Add(oneH)
+		case "basis-bogus":
+			rq.basis.ID[5] ^= 0x40
+		case "basis-zero":
+			*rq.basis = types.ChainIndex{}
+		case "input-proof-flip":
+			if len(*rq.inputs) > 0 && len((*rq.inputs)[0].StateElement.MerkleProof) > 0 {
+				(*rq.inputs)[0].StateElement.MerkleProof[0][3] ^= 1
+			}
+		case "input-value+1":
+			if len(*rq.inputs) > 0 {
+				(*rq.inputs)[0].SiacoinOutput.Value = (*rq.inputs)[0].SiacoinOutput.Value.Add(oneH)
+			}
+		case "input-id-flip":
+			if len(*rq.inputs) > 0 {
+				(*rq.inputs)[0].ID[7] ^= 1
+			}
+		case "inputs-drop":
+			*rq.inputs = nil
+		case "parents-drop":
+			*rq.parents = nil
+		case "prices-sig-flip":
+			rq.prices.Signature[9] ^= 1
+		case "proofheight+1":
+			if rq.proofHeight == nil {
+				return false
+			}
+			*rq.proofHeight++
+		case "challenge-flip":
+			if rq.challenge == nil {
+				return false
+			}
+			rq.challenge[11] ^= 1
+		default:
+			return false
+		}
+	case hostInputs != nil:
+		in := *hostInputs
+		switch f.Mut {
+		case "input-value+1":
+			if len(in) > 0 {
+				in[0].Parent.SiacoinOutput.Value = in[0].Parent.SiacoinOutput.Value.Add(oneH)
+			}
+		case "input-id-flip":
+			if len(in) > 0 {
+				in[0].Parent.ID[7] ^= 1
+			}
+		case "inputs-drop":
+			*hostInputs = nil
+		case "input-sig-flip":
+			if len(in) > 0 && len(in[0].SatisfiedPolicy.Signatures) > 0 {
+				in[0].SatisfiedPolicy.Signatures[0][5] ^= 1
+			}
+		case "input-proof-flip":
+			if len(in) > 0 && len(in[0].Parent.StateElement.MerkleProof) > 0 {
+				in[0].Parent.StateElement.MerkleProof[0][3] ^= 1
+			}
+		default:
+			return false
+		}
+	case sec != nil:
+		switch f.Mut {
+		case "contract-sig-flip":
+			sec.contractSig[13] ^= 1
+		case "renewal-sig-flip":
+			if sec.renewalSig == nil {
+				return false
+			}
+			sec.renewalSig[13] ^= 1
+		case "policy-sig-flip":
+			if p := *sec.policies; len(p) > 0 && len(p[0].Signatures) > 0 {
+				p[0].Signatures[0][5] ^= 1
+			}
+		case "policies-drop":
+			*sec.policies = nil
+		case "policies-extend":
+			if p := *sec.policies; len(p) > 0 {
+				*sec.policies = append(p, p[0])
+			}
+		default:
+			return false
+		}
+	case th != nil:
+		set := *th.set
+		var fc *types.V2FileContract
+		var ren *types.V2FileContractRenewal
+		if len(set) > 0 {
+			last := &set[len(set)-1]
+			if len(last.FileContracts) > 0 {
+				fc = &last.FileContracts[0]
+			}
+			if len(last.FileContractResolutions) > 0 {
+				if r, ok := last.FileContractResolutions[0].Resolution.(*types.V2FileContractRenewal); ok {
+					ren = r
+					fc = &r.NewContract
+				}
+			}
+		}
+		switch f.Mut {
+		case "payout":
+			// a contract that pays the renter one hasting less, genuine signatures kept
+			if fc != nil && !fc.RenterOutput.Value.IsZero() {
+				fc.RenterOutput.Value = fc.RenterOutput.Value.Sub(oneH)
+				fc.HostOutput.Value = fc.HostOutput.Value.Add(oneH)
+			}
+		case "missed-host-value":
+			if fc != nil {
+				fc.MissedHostValue = fc.MissedHostValue.Add(oneH)
+			}
+		case "contract-hostsig-flip":
+			if fc != nil {
+				fc.HostSignature[17] ^= 1
+			}
+		case "renewal-hostsig-flip":
+			if ren == nil {
+				return false
+			}
+			ren.HostSignature[17] ^= 1
+		case "set-empty":
+			*th.set = nil
+		case "set-drop-last":
+			if len(set) > 0 {
+				*th.set = set[:len(set)-1]
+			}
+		// the three below damage only auxiliary data of the returned set
+		case "aux-basis-flip":
+			th.basis.ID[5] ^= 0x40
+		case "aux-rentersig-flip":
+			if fc != nil {
+				fc.RenterSignature[17] ^= 1
+			}
+		case "aux-inputsig-flip":
+			if len(set) > 0 {
+				last := &set[len(set)-1]
+				if n := len(last.SiacoinInputs); n > 0 && len(last.SiacoinInputs[n-1].SatisfiedPolicy.Signatures) > 0 {
+					last.SiacoinInputs[n-1].SatisfiedPolicy.Signatures[0][5] ^= 1
+				}
+			}
+		default:
+			return false
+		}
+	default:
+		return false
+	}
+	return true
+}
+
+// FormationMuts lists the MITM mutation families per (direction, index);
+// rpc is "form", "renew" or "refresh".
+func FormationMuts(rpc string, dir, idx int) []string {
+	switch {
+	case dir == R2H && idx == 0:
+		l := []string{"allowance+1", "collateral+1", "minerfee+1", "basis-bogus", "basis-zero", "input-proof-flip", "input-value+1", "input-id-flip", "inputs-drop", "parents-drop", "prices-sig-flip"}
+		if rpc != "refresh" {
+			l = append(l, "proofheight+1")
+		}
+		if rpc != "form" {
+			l = append(l, "challenge-flip")
+		}
+		return l
+	case dir == R2H:
+		l := []string{"contract-sig-flip", "policy-sig-flip", "policies-drop", "policies-extend"}
+		if rpc != "form" {
+			l = append(l, "renewal-sig-flip")
+		}
+		return l
+	case idx == 0:
+		return []string{"input-value+1", "input-id-flip", "inputs-drop", "input-sig-flip", "input-proof-flip"}
+	default:
+		l := []string{"payout", "missed-host-value", "contract-hostsig-flip", "set-empty", "set-drop-last", "aux-basis-flip", "aux-rentersig-flip", "aux-inputsig-flip"}
+		if rpc != "form" {
+			l = append(l, "renewal-hostsig-flip")
+		}
+		return l
+	}
+}
